@@ -720,7 +720,36 @@ func (c *Ctx) c08ReadParameters(rp, np *ssa.Function) {
 	// each value: a length, then that many bytes
 	var getBytes *ssa.Call
 	var length ssa.Value
-	for _, ci := range core.Calls(rp) {
+	// one value may be read by a step of its own (readParameter(ctx, reader, format) (Parameter, error)): the length /
+	// sentinel / bytes rules are then decided inside the step, and readParameters stores the step's result at the
+	// loop index on its err == nil edge
+	vfn := rp
+	var vcall *ssa.Call
+	hasValueRead := func(fn *ssa.Function) bool {
+		gb, gu := false, false
+		for _, ci := range core.Calls(fn) {
+			if isReaderMethod(ci, "GetBytes") {
+				gb = true
+			}
+			if isReaderMethod(ci, "GetUint32") {
+				gu = true
+			}
+		}
+		return gb && gu
+	}
+	if !hasValueRead(rp) {
+		for _, ci := range core.Calls(rp) {
+			call, isCall := ci.(*ssa.Call)
+			if !isCall {
+				continue
+			}
+			if h := core.StaticCallee(call); h != nil && c.P.InPkg(h, "wire") && h.Blocks != nil && hasValueRead(h) && len(callsIn(h, calleeIs(np))) > 0 {
+				vfn, vcall = h, call
+				R.Analysed(fname(h))
+			}
+		}
+	}
+	for _, ci := range core.Calls(vfn) {
 		if call, ok := ci.(*ssa.Call); ok {
 			if isReaderMethod(call, "GetBytes") {
 				getBytes = call
@@ -750,7 +779,7 @@ func (c *Ctx) c08ReadParameters(rp, np *ssa.Function) {
 		return false
 	}
 	nNew := 0
-	for _, ci := range callsIn(rp, calleeIs(np)) {
+	for _, ci := range callsIn(vfn, calleeIs(np)) {
 		call := ci.(*ssa.Call)
 		nNew++
 		val := call.Call.Args[2]
@@ -791,16 +820,43 @@ func (c *Ctx) c08ReadParameters(rp, np *ssa.Function) {
 		}
 		// stored at the loop index into params
 		stored := false
-		for _, r := range core.Referrers(call) {
-			if st, ok := r.(*ssa.Store); ok {
-				if ia, ok := st.Addr.(*ssa.IndexAddr); ok && params != nil && ia.X == ssa.Value(params) && isInduction(ia.Index) {
-					stored = true
+		var produced ssa.Value = call // the parameter value in readParameters' terms
+		if vcall != nil {
+			// the step hands this parameter back (with a nil error), and readParameters stores the step's result
+			handsBack := false
+			for _, r := range returns(vfn) {
+				if len(r.Results) == 2 && r.Results[0] == ssa.Value(call) && core.IsNilConst(r.Results[1]) {
+					handsBack = true
+				}
+			}
+			produced = nil
+			if handsBack {
+				produced = resultOf(vcall, 0)
+			}
+		}
+		if produced != nil {
+			for _, r := range core.Referrers(produced) {
+				if st, ok := r.(*ssa.Store); ok {
+					if ia, ok := st.Addr.(*ssa.IndexAddr); ok && params != nil && ia.X == ssa.Value(params) && isInduction(ia.Index) {
+						stored = vcall == nil || anyDominates(nilEdges(resultOf(vcall, 1), true), st.Block())
+					}
 				}
 			}
 		}
 		R.Check(stored, "C08.R1", "readParameters:position", c.at(call), "parameter i is stored at position i", "parameters[i] = NewParameter(..) with the loop's induction variable", "the parameter is not stored at the loop index of the parameters slice")
 		kinds := map[string]bool{}
-		c.classifyFormat(rp, call.Call.Args[1], kinds, 0)
+		fmtArg := call.Call.Args[1]
+		if vcall != nil {
+			// the step tags the value with the format it was handed
+			if prm, isP := core.StripConv(fmtArg).(*ssa.Parameter); isP {
+				for i, hp := range vfn.Params {
+					if hp == prm && i < len(vcall.Call.Args) {
+						fmtArg = vcall.Call.Args[i]
+					}
+				}
+			}
+		}
+		c.classifyFormat(rp, fmtArg, kinds, 0)
 		got := strings.Join(sortedKeys(kinds), ",")
 		R.Check(got == "positional,single-code,text-default", "C08.R3", "readParameters:format-rule", c.at(call), "the format of parameter i is: text if no codes, the single code if one was sent, codes[i] if i < len(codes)", "format sources {"+got+"}", "format sources are {"+got+"}, expected {positional,single-code,text-default}")
 	}
